@@ -202,6 +202,7 @@ def apply_event(world, refs, ev):
         n, equal, k = arg
         parts = t.split(n, equal_parts=equal)
         new = parts[k]
+        unequal = equal and len({len(x) for x in parts}) != 1
         # which frames form part k is C19's business; here: the part must be a contiguous run of source frames
         p = np.array(new.positions)
         start = None
@@ -214,6 +215,8 @@ def apply_event(world, refs, ev):
             nr.bad = 'split part is not a contiguous run of source frames'
         else:
             nr = Ref(r.pos[start:start + len(p)], r.syms, r.M, r.dt, r.meta, r.nest + 1)
+        if unequal:
+            nr.bad = f'split(equal_parts=True) returned parts of lengths {[len(x) for x in parts]}'
     elif kind == 'extend':
         t.extend(world[arg])
         refs[i] = Ref(np.concatenate([r.pos, refs[arg].pos], axis=0), r.syms, r.M, r.dt, r.meta, r.nest)
@@ -346,7 +349,7 @@ def observe(build, hist):
     n = len(w.objs)
     for i in range(n):
         if getattr(w.refs[i], 'bad', None):
-            viols.append(('split-part-not-contiguous-source-frames', w.refs[i].bad))
+            viols.append(('split-part-not-contiguous-or-not-equal', w.refs[i].bad))
     for q in OBSERVATIONS:
         w = build(hist)  # fresh replica per observation: observing must not disturb what is observed
         for i in range(n):
